@@ -104,11 +104,21 @@ var newUClientConnection = func(
 
 	var params *wire.TransportParameters
 
-	if uSpec.ClientHelloSpec != nil {
+	// [UQUIC] One QUICSpec value serves many dials, but setting up a connection writes
+	// per-connection state into the ClientHelloSpec's extensions: PopulateFromUQUIC
+	// stores this connection's source connection ID in the transport parameter list,
+	// and uTLS (ApplyPreset, Len) stores the generated key shares, the server name and
+	// the marshaled transport parameters. Work on a per-connection copy of those
+	// extensions, so the next dial with the same spec starts from the spec as written
+	// instead of replaying this connection's initial_source_connection_id (rejected by
+	// the peer) and key shares (for which it has no private keys).
+	clientHelloSpec := cloneClientHelloSpecForDial(uSpec.ClientHelloSpec)
+
+	if clientHelloSpec != nil {
 		// iterate over all Extensions to set the TransportParameters
 		var tpSet bool
 	FOR_EACH_TLS_EXTENSION:
-		for _, ext := range uSpec.ClientHelloSpec.Extensions {
+		for _, ext := range clientHelloSpec.Extensions {
 			switch ext := ext.(type) {
 			case *tls.QUICTransportParametersExtension:
 				params = &wire.TransportParameters{
@@ -181,7 +191,7 @@ var newUClientConnection = func(
 		s.qlogger,
 		logger,
 		s.version,
-		uSpec.ClientHelloSpec,
+		clientHelloSpec,
 	)
 	s.cryptoStreamHandler = cs
 	s.cryptoStreamManager = newCryptoStreamManager(s.initialStream, s.handshakeStream, oneRTTStream)
@@ -201,4 +211,31 @@ var newUClientConnection = func(
 		}
 	}
 	return &wrappedConn{Conn: s}
+}
+
+// cloneClientHelloSpecForDial returns a copy of chs in which every extension that
+// connection setup writes to (key_share, server_name, quic_transport_parameters) is a
+// fresh value. Transport parameter values themselves are shared, so a GREASE parameter
+// keeps the ID it drew (see QUICSpec.TransportParameterIDs). [UQUIC]
+func cloneClientHelloSpecForDial(chs *tls.ClientHelloSpec) *tls.ClientHelloSpec {
+	if chs == nil {
+		return nil
+	}
+	c := *chs
+	c.Extensions = make([]tls.TLSExtension, len(chs.Extensions))
+	for i, e := range chs.Extensions {
+		switch ext := e.(type) {
+		case *tls.KeyShareExtension:
+			c.Extensions[i] = &tls.KeyShareExtension{KeyShares: append([]tls.KeyShare(nil), ext.KeyShares...)}
+		case *tls.SNIExtension:
+			c.Extensions[i] = &tls.SNIExtension{ServerName: ext.ServerName}
+		case *tls.QUICTransportParametersExtension:
+			c.Extensions[i] = &tls.QUICTransportParametersExtension{
+				TransportParameters: append(tls.TransportParameters(nil), ext.TransportParameters...),
+			}
+		default:
+			c.Extensions[i] = e
+		}
+	}
+	return &c
 }
